@@ -102,7 +102,7 @@ type Machine struct {
 	schemaMx    sync.RWMutex
 	// activeStates is a list of currently active schema.
 	activeStates   S
-	activeStatesMx sync.RWMutex
+	activeStatesMx simhook.RWMutex
 	// queue of mutations to be executed.
 	queue []*Mutation
 	// queueTick is the number of times the queue has processed an appended
